@@ -362,3 +362,119 @@ Print Assumptions C13_zero_sum_keeps_base.
    C13/Examples.v, orig_out_refuted (vm_compute on primitive floats; kept out of this file so that the assumptions
    listed here are the real-number axioms only).  Likewise overrun_detected: a block sized for one active set per input
    while two are active makes the model return Fail ErrScratch.  checks/C13.py builds C13/Examples.v on every run. *)
+
+(* ============================================================ rounded arithmetic (C13/MfRound.v)
+   The same model terms at  Rnd_ops rnd  (Common/RoundOps.v: every + - * / sqrt and literal followed by rnd : R -> R,
+   comparisons exact, overflow outside the model) and, for the functions that call libm, at  Orc_ops rnd E P  (the same,
+   with exp := E and pow := P ORACLES constrained by orc_ok: 0 <= E, E <= 1 on t <= 0, E monotone, 0 <= P u y for u >= 0,
+   0 <= P u 2, P u 2 monotone in u >= 0; Rnd13_ops rnd is the correctly rounded case).  unitR v := 0 <= v <= 1.
+   mono_rnd rnd: monotone, rnd 0 = 0, rnd 1 = 1, rnd (-x) = - rnd x.  nz rnd a b := a < b -> rnd (b - a) <> 0 (no flush
+   to zero on the subtraction whose result is divided by).  mid rnd a b := rnd (rnd (a + b) / 2), the computed midpoint.
+   sz_ok rnd P a b := 2 P (rnd (rnd (b - mid) / rnd (b - a))) 2 <= 1 /\ 2 P (rnd (rnd (mid - a) / rnd (b - a))) 2 <= 1. *)
+From LibaV Require Import Common.RoundOps Common.RoundFlocq Common.RoundMono C13.MfRound.
+
+(* piecewise-linear families: in [0,1] ... *)
+Theorem C13_round_ramp_range : forall rnd, mono_rnd rnd ->
+  (forall x a b c, nz rnd a b -> nz rnd b c -> unitR (mf_tri (Rnd_ops rnd) x a b c)) /\
+  (forall x a b c d, nz rnd a b -> nz rnd c d -> unitR (mf_trap (Rnd_ops rnd) x a b c d)) /\
+  (forall x a b, nz rnd a b -> unitR (mf_lins (Rnd_ops rnd) x a b)) /\
+  (forall x a b, nz rnd a b -> unitR (mf_linz (Rnd_ops rnd) x a b)).
+Proof. exact round_ramp_range. Qed.
+Print Assumptions C13_round_ramp_range.
+
+(* ... exactly 1 on the core and exactly 0 outside the support: the statements of C13_mf_core / C13_mf_support *)
+Theorem C13_round_ramp_core_support : forall rnd, mono_rnd rnd ->
+  ((forall x a b c d, b <= x <= c -> mf_trap (Rnd_ops rnd) x a b c d = 1) /\
+   (forall a b c, mf_tri (Rnd_ops rnd) b a b c = 1) /\
+   (forall x a b, a <= b -> b <= x -> mf_lins (Rnd_ops rnd) x a b = 1) /\
+   (forall x a b, nz rnd a b -> x < a \/ (x <= a /\ a < b) -> mf_linz (Rnd_ops rnd) x a b = 1)) /\
+  ((forall x a b c d, a <= b -> b <= c -> c <= d ->
+      (x < a \/ (x <= a /\ a < b) \/ d < x \/ (d <= x /\ c < d)) -> mf_trap (Rnd_ops rnd) x a b c d = 0) /\
+   (forall x a b c, a <= b -> b <= c ->
+      (x < a \/ (x <= a /\ a < b) \/ c < x \/ (c <= x /\ b < c)) -> mf_tri (Rnd_ops rnd) x a b c = 0) /\
+   (forall x a b, nz rnd a b -> x < a \/ (x <= a /\ a < b) -> mf_lins (Rnd_ops rnd) x a b = 0) /\
+   (forall x a b, a <= b -> b <= x -> mf_linz (Rnd_ops rnd) x a b = 0)).
+Proof. exact round_ramp_core_support. Qed.
+Print Assumptions C13_round_ramp_core_support.
+
+(* piecewise-quadratic families: range under the midpoint condition sz_ok, core/support when the computed midpoint
+   separates the ends *)
+Theorem C13_round_sz : forall rnd E P, mono_rnd rnd -> rnd 2 = 2 -> orc_ok E P ->
+  (forall x a b, a <= b -> sz_ok rnd P a b -> unitR (mf_s (Orc_ops rnd E P) x a b) /\ unitR (mf_z (Orc_ops rnd E P) x a b)) /\
+  (forall x a b c d, a <= b -> c <= d -> sz_ok rnd P a b -> sz_ok rnd P c d -> unitR (mf_pi (Orc_ops rnd E P) x a b c d)) /\
+  (forall x a b, mid rnd a b < b -> b <= x -> mf_s (Orc_ops rnd E P) x a b = 1) /\
+  (forall x a b, a <= mid rnd a b -> x <= a -> mf_s (Orc_ops rnd E P) x a b = 0) /\
+  (forall x a b, a < mid rnd a b -> x <= a -> mf_z (Orc_ops rnd E P) x a b = 1) /\
+  (forall x a b, mid rnd a b <= b -> b <= x -> mf_z (Orc_ops rnd E P) x a b = 0) /\
+  (forall x a b c d, b <= x <= c -> mf_pi (Orc_ops rnd E P) x a b c d = 1) /\
+  (forall x a b c d, a < b -> a <= mid rnd a b -> x <= a -> mf_pi (Orc_ops rnd E P) x a b c d = 0) /\
+  (forall x a b c d, b <= c -> c < d -> mid rnd c d <= d -> d <= x -> mf_pi (Orc_ops rnd E P) x a b c d = 0).
+Proof. exact round_sz. Qed.
+Print Assumptions C13_round_sz.
+
+(* without the midpoint conditions S and Z leave [0,1] in IEEE binary64 with correctly rounded pow: for adjacent
+   parameters (u52 = 2^-52) a + b is a tie that rounds onto 2b (2a), the computed midpoint is b (a), and the value on the
+   core is 2.  The C functions a_mf_s / a_mf_z return 2 on these inputs. *)
+Theorem C13_b64_sz_refuted :
+  (exists x a b, rnd64 x = x /\ rnd64 a = a /\ rnd64 b = b /\ a < b /\ b <= x /\ mf_s (Rnd13_ops rnd64) x a b = 2) /\
+  (exists x a b, rnd64 x = x /\ rnd64 a = a /\ rnd64 b = b /\ a < b /\ x <= a /\ mf_z (Rnd13_ops rnd64) x a b = 2) /\
+  mf_s (Rnd13_ops rnd64) (1 + 2 * u52) (1 + u52) (1 + 2 * u52) = 2 /\
+  mf_z (Rnd13_ops rnd64) (1 + 2 * u52) (1 + 2 * u52) (1 + 3 * u52) = 2.
+Proof. exact b64_sz_refuted. Qed.
+Print Assumptions C13_b64_sz_refuted.
+
+(* families built on exp / pow: in [0,1] for every oracle pair satisfying orc_ok *)
+Theorem C13_round_smooth_range : forall rnd E P, mono_rnd rnd -> rnd 2 = 2 -> orc_ok E P ->
+  (forall x s c, unitR (mf_gauss (Orc_ops rnd E P) x s c)) /\
+  (forall x s1 c1 s2 c2, unitR (mf_gauss2 (Orc_ops rnd E P) x s1 c1 s2 c2)) /\
+  (forall x a b c, unitR (mf_gbell (Orc_ops rnd E P) x a b c)) /\
+  (forall x a c, unitR (mf_sig (Orc_ops rnd E P) x a c)) /\
+  (forall x a1 c1 a2 c2, unitR (mf_psig (Orc_ops rnd E P) x a1 c1 a2 c2)) /\
+  (forall x a c1 c2, (0 <= a /\ c1 <= c2) \/ (a <= 0 /\ c2 <= c1) -> unitR (mf_dsig (Orc_ops rnd E P) x a c1 a c2)).
+Proof. exact round_smooth_range. Qed.
+Print Assumptions C13_round_smooth_range.
+
+(* operators on [0,1]^2 (the upper bound of the algebraic sum is not proved) *)
+Theorem C13_round_operators : forall rnd, mono_rnd rnd -> rnd 2 = 2 -> forall a b, unitR a -> unitR b ->
+  unitR (fuzzy_not (Rnd_ops rnd) a) /\
+  unitR (fuzzy_cap (Rnd_ops rnd) a b) /\ unitR (fuzzy_cap_algebra (Rnd_ops rnd) a b) /\
+  unitR (fuzzy_cap_bounded (Rnd_ops rnd) a b) /\
+  unitR (fuzzy_cup (Rnd_ops rnd) a b) /\ unitR (fuzzy_cup_bounded (Rnd_ops rnd) a b) /\
+  0 <= fuzzy_cup_algebra (Rnd_ops rnd) a b /\
+  unitR (fuzzy_equ (Rnd_ops rnd) a b).
+Proof. exact round_operators. Qed.
+Print Assumptions C13_round_operators.
+
+(* IEEE binary64 round-to-nearest-even satisfies every hypothesis on rnd, the correctly rounded oracles satisfy orc_ok,
+   and nz holds for parameters that are binary64 numbers (gradual underflow) ... *)
+Theorem C13_b64_instances :
+  mono_rnd rnd64 /\ rnd64 2 = 2 /\ orc_ok (fun x => rnd64 (exp x)) (fun x y => rnd64 (Rpow x y)) /\
+  (forall a b, rnd64 a = a -> rnd64 b = b -> nz rnd64 a b).
+Proof. exact b64_instances. Qed.
+Print Assumptions C13_b64_instances.
+
+(* ... hence, in binary64, for parameters that are binary64 numbers and every real x *)
+Theorem C13_b64_ramp_range :
+  (forall x a b c, rnd64 a = a -> rnd64 b = b -> rnd64 c = c -> unitR (mf_tri (Rnd_ops rnd64) x a b c)) /\
+  (forall x a b c d, rnd64 a = a -> rnd64 b = b -> rnd64 c = c -> rnd64 d = d -> unitR (mf_trap (Rnd_ops rnd64) x a b c d)) /\
+  (forall x a b, rnd64 a = a -> rnd64 b = b -> unitR (mf_lins (Rnd_ops rnd64) x a b)) /\
+  (forall x a b, rnd64 a = a -> rnd64 b = b -> unitR (mf_linz (Rnd_ops rnd64) x a b)).
+Proof. exact b64_ramp_range. Qed.
+Print Assumptions C13_b64_ramp_range.
+
+Theorem C13_b64_smooth_range :
+  (forall x s c, unitR (mf_gauss (Rnd13_ops rnd64) x s c)) /\
+  (forall x s1 c1 s2 c2, unitR (mf_gauss2 (Rnd13_ops rnd64) x s1 c1 s2 c2)) /\
+  (forall x a b c, unitR (mf_gbell (Rnd13_ops rnd64) x a b c)) /\
+  (forall x a c, unitR (mf_sig (Rnd13_ops rnd64) x a c)) /\
+  (forall x a1 c1 a2 c2, unitR (mf_psig (Rnd13_ops rnd64) x a1 c1 a2 c2)) /\
+  (forall x a c1 c2, (0 <= a /\ c1 <= c2) \/ (a <= 0 /\ c2 <= c1) -> unitR (mf_dsig (Rnd13_ops rnd64) x a c1 a c2)).
+Proof. exact b64_smooth_range. Qed.
+Print Assumptions C13_b64_smooth_range.
+
+(* non-vacuity of the midpoint and no-flush conditions: a = 0, b = 4 in binary64 (mid = 2, both ratios 1/2) *)
+Theorem C13_b64_sz_hypotheses_satisfiable :
+  0 <= 4 /\ sz_ok rnd64 (fun x y => rnd64 (Rpow x y)) 0 4 /\
+  0 < mid rnd64 0 4 < 4 /\ nz rnd64 0 4 /\ rnd64 0 = 0 /\ rnd64 4 = 4.
+Proof. exact sz_ok_ex. Qed.
+Print Assumptions C13_b64_sz_hypotheses_satisfiable.
